@@ -183,8 +183,10 @@ def symptom(fid, q, keys, sh, hist):
             n_all = max(0, len(sh.recs) - q[2])
             if len(keys) == (min(q[3], n_all) if q[3] else n_all):
                 return True
-        if hist.value_read_over_mixed and nodup and live:
-            return True                 # built (non-strict-weak-order sort) while another type was alive; order survived the delete
+        if hist.value_read_over_mixed and all(k in hist.ever_keys for k in keys):
+            # built while another type was alive: a non-strict-weak-order sort whose order survives later
+            # deletes, or (int64 request) a failed build whose debris keeps deleted keys
+            return True
         # or: the one shared value index was built by a read of another value type (its order, or the
         # debris of a failed int64 build, is what this read gets) — only keys this case ever wrote
         return bool(hist.value_types_read - {idx}) and all(k in hist.ever_keys for k in keys)
